@@ -6,6 +6,7 @@ R-C08.2  row-shape agreement: CREATE TABLE columns / INSERT tuple / SELECT list 
 R-C08.3  a call trace round-trips through CallTraceRow with absent return/yield kept distinct from NoneType
 R-C08.4  canonical text: every json.dumps in the codec sorts keys
 R-C08.5  hidden builtin table: every entry is reachable by its key and decodes to the type it names
+R-C08.11 a type decodes to itself whatever was decoded before it in the process (no memo of names keyed by dotted text)
 R-C08.10 a row carries the module and qualified name of the traced function object itself
 R-C08.9  every generic form built by the inference functions is a form of the decided universe (no PEP 585 aliases)
 R-C08.8  a recorded class that is no longer found under its name never decodes to a different, similarly named class
@@ -203,7 +204,11 @@ def rule_trace_round_trip(ctx: Ctx, repo: Repo) -> None:
     # innermost function (it follows __wrapped__), so decoding must follow the chain from the getter too
     pgw = CM.func("pkg.mod", "User.area")
     world.add("pkg.mod", "User.area", CM.prop(R("func", __module__=K("pkg.mod"), __qualname__=K("User.area"), __name__=K("area"), __wrapped__=pgw)))
-    funcs += [wrapped, cm, pg, pgw]
+    # a functools.wraps wrapper that also states a signature of its own (a dependency-injection decorator hiding a parameter):
+    # the tracer records the inner function, whose frame ran
+    inj = CM.func("pkg.mod", "lookup")
+    world.add("pkg.mod", "lookup", R("func", __module__=K("pkg.mod"), __qualname__=K("lookup"), __name__=K("lookup"), __wrapped__=inj, __signature__=K("(key)")))
+    funcs += [wrapped, cm, pg, pgw, inj]
     opts = [K(None), CM.NONE_T, CM.gen("List", CM.USER), CM.anon_td({"a": CM.INT}), CM.REGISTRY]  # REGISTRY: a class that is false as a truth value
     n = 0
     for f in funcs:
@@ -355,6 +360,41 @@ def rule_dumps(ctx: Ctx, repo: Repo) -> None:
     ctx.floor("R-C08.4", "json.dumps calls in encoding.py", n, 2)
 
 
+def rule_decode_no_memory(ctx: Ctx, repo: Repo) -> None:
+    """R-C08.11: decoding is a function of the encoded text and the program as it is - not of what was decoded earlier in the
+    process.  Pairs of types are decoded one after the other with the module-level objects of the package shared (a memo of
+    resolved names lives there): names that are different (module, qualified name) pairs but the same dotted text - a class
+    nested in a class `orders` of package `pkg` and a class of the submodule `pkg.orders` - and plain different names."""
+    tj, fj = repo.fn(ENC, "type_to_json"), repo.fn(ENC, "type_from_json")
+    ctx.functions.update({fj.fq, "monkeytype.util.get_name_in_module"})
+    w = World()
+    a_nested, a_sub = CM.cls("pkg", "orders.Line"), CM.cls("pkg.orders", "Line")
+    w.add("pkg", "orders", CM.cls("pkg", "orders"))
+    w.add("pkg", "orders.Line", a_nested)
+    w.modules.setdefault("pkg.orders", {})
+    w.add("pkg.orders", "Line", a_sub)
+    pairs = [("`pkg` : `orders.Line` then `pkg.orders` : `Line` (one dotted text, two objects)", a_nested, a_sub), ("the same two, in the other order", a_sub, a_nested),
+             ("List[...] of the two", CM.gen("List", a_nested), CM.gen("List", a_sub)), ("two unrelated classes", CM.USER, CM.OTHER),
+             ("a class, then a generated TypedDict with a field of the look-alike", a_nested, CM.anon_td({"line": a_sub}))]
+    n = 0
+    for what, t1, t2 in pairs:
+        encs = []
+        for t in (t1, t2):
+            k, enc = CodecScenario(repo, ENC, "type_to_json", w).result({tj.positional_params()[0]: t})
+            if k != "return":
+                raise AnalysisError(f"R-C08.11: {show(t)} does not encode")
+            encs.append(enc)
+        s1 = CodecScenario(repo, ENC, "type_from_json", w)
+        k1, d1 = s1.result({fj.positional_params()[0]: encs[0]})
+        s2 = CodecScenario(repo, ENC, "type_from_json", w)
+        k2, d2 = s2.result({fj.positional_params()[0]: encs[1]}, carry=s1.last_state)
+        n += 1
+        ctx.check(k1 == "return" and same_type(d1, t1) and k2 == "return" and same_type(d2, t2), "R-C08.11", f"{ENC}.type_from_dict",
+                  "a type decodes to itself whatever was decoded before it in the same process",
+                  construct=f"{what}: the second decodes to {show(d2) if k2 == 'return' else 'raises ' + str(d2)}, expected {show(t2)}")
+    ctx.floor("R-C08.11", "ordered pairs of decodings sharing module state", n, 5)
+
+
 def rule_row_names(ctx: Ctx, repo: Repo, rule: str = "R-C08.10") -> None:
     """The row is filed under the module and qualified name of the traced function object ITSELF - the object whose
     __module__ the store logger's __main__ test read and whose code the filter admitted - not of something reachable from it
@@ -499,4 +539,5 @@ def run(ctx: Ctx, repo: Repo, tier: str) -> None:
     ctx.attempt(rule_no_impostor, ctx, repo)
     ctx.attempt(rule_producer_forms, ctx, repo)
     ctx.attempt(rule_row_names, ctx, repo)
+    ctx.attempt(rule_decode_no_memory, ctx, repo)
     ctx.settle()
